@@ -139,7 +139,10 @@ def random_tree(rng, nodes, maxdepth):
 
 
 def sampled(rng, count, lo, hi, maxdepth=12):
-    logical_pool = [None, None, [(1, T_STRUCT, [])], [(6, T_STRUCT, [])], [(10, T_STRUCT, [(1, 3, 32), (2, 1, True)])], [(5, T_STRUCT, [(1, T_I32, 2), (2, T_I32, 9)])]]
+    # every member of the LogicalType union (ids 1..8 and 10..15: the union has no member 9, the accessor's enum has no gap)
+    logical_pool = [None, None, [(1, T_STRUCT, [])], [(6, T_STRUCT, [])], [(10, T_STRUCT, [(1, 3, 32), (2, 1, True)])], [(5, T_STRUCT, [(1, T_I32, 2), (2, T_I32, 9)])],
+                    [(2, T_STRUCT, [])], [(3, T_STRUCT, [])], [(4, T_STRUCT, [])], [(7, T_STRUCT, [(1, 1, True), (2, T_STRUCT, [(2, T_STRUCT, [])])])], [(8, T_STRUCT, [(1, 2, False), (2, T_STRUCT, [(3, T_STRUCT, [])])])],
+                    [(11, T_STRUCT, [])], [(12, T_STRUCT, [])], [(13, T_STRUCT, [])], [(14, T_STRUCT, [])], [(15, T_STRUCT, [])], [(10, T_STRUCT, [(1, 3, 8), (2, 2, False)])]]
     for _ in range(count):
         n = rng.randrange(lo, hi + 1)
         cc = random_tree(rng, n, maxdepth)
